@@ -89,10 +89,13 @@ def execute(case: dict) -> dict:
                    "fe": meshtabs.padded(m["face_edge"], maxn), "ef": meshtabs.padded(m["edge_face"], 2),
                    "ff": meshtabs.padded(m["face_face"], maxn)}}
     rec = {"tid": case["tid"], "src": case["src"], "w": tw, "events": []}
-    for e in case["events"]:
+    from ..cellsdrv import snapshot
+    before, after = [], []
+    for k_ev, e in enumerate(case["events"]):
         e = dict(e)
         ww = dict(w); ww["enc"] = dict(e["enc"])
         ds = W.build(ww)
+        before += [[f"{k_ev}:{r[0]}"] + r[1:] for r in snapshot(ds)]
         conv = ds.ems
         topo = conv.topology
         obs = {}
@@ -104,7 +107,16 @@ def execute(case: dict) -> dict:
         obs["polys"] = outcome(lambda: [polygon_vertices(p) for p in conv.polygons])
         obs["dims"] = outcome(lambda: {"face": str(topo.face_dimension), "node": str(topo.node_dimension),
                                        "edge": str(topo.edge_dimension), "max": str(topo.max_node_dimension)})
+        # the same tables asked for again - of the same topology object, and of a fresh convention object made for the
+        # same dataset - after everything has been derived once
+        tabs = (("fn", "face_node_array"), ("en", "edge_node_array"), ("fe", "face_edge_array"),
+                ("ef", "edge_face_array"), ("ff", "face_face_array"))
+        obs["again"] = {k: outcome(lambda: rows(getattr(topo, attr))) for k, attr in tabs}
+        topo2 = type(conv)(ds).topology
+        obs["fresh"] = {k: outcome(lambda: rows(getattr(topo2, attr))) for k, attr in tabs}
+        after += [[f"{k_ev}:{r[0]}"] + r[1:] for r in snapshot(ds)]
         e["obs"] = obs
         e["expectdims"] = {"ok": {"face": "nMesh2_face", "node": "nMesh2_node", "edge": "nMesh2_edge", "max": "nMaxMesh2_face_nodes"}}
         rec["events"].append(e)
+    rec["input"] = {"before": before, "after": after}
     return rec
